@@ -129,14 +129,16 @@ def canonFileWhy (m : Model) (f : File Vals) : String :=
     firstNonEmpty (f.cashLetters.map (cashLetterCanonWhy m))]
 
 
-/-! ### the additional hypotheses of the EBCDIC theorems (`CanonFileE`): safe text, no record 52 -/
+/-! ### the additional hypothesis of the EBCDIC theorems (`CanonFileE`): text the code page carries -/
 
 def safeWhy (m : Model) (krs : List (Kind × Option Vals)) : String :=
   match krs.find? (fun kr => match kr.2 with
-      | some v => kr.1 == .ivData || !(lineOf m kr.1 (some v)).all (safeB m.cm)
+      | some v =>
+        if kr.1 == .ivData then !(render m.b64 (m.layout .ivData).write false v).all (safeB m.cm)
+        else !(lineOf m kr.1 (some v)).all (safeB m.cm)
       | none => true) with
   | none => ""
-  | some kr => if kr.1 == .ivData then "record 52 present" else kr.1.goName ++ ": text outside the code page"
+  | some kr => kr.1.goName ++ ": text outside the code page"
 
 /-- the decidable part of `CanonFileE m f`: "" when it holds -/
 def canonFileEWhy (m : Model) (f : File Vals) : String :=
